@@ -4,7 +4,13 @@ import (
 	"go/ast"
 )
 
-func (g *Gen) tables(id string) { g.ruleLemmas(id) }
+func (g *Gen) tables(id string) {
+	g.ruleLemmas(id)
+	g.symbolObligations(id)
+	g.sortObligations(id)
+}
+
+func (g *Gen) sortObligations(id string) {}
 func (g *Gen) thoroughExtras(id string, obls *[]*Obligation, work string) {}
 func runSelftest(args []string) int { return 2 }
 
